@@ -14,9 +14,9 @@ import numpy as np
 import pandas as pd
 
 from ..core import MachineryError
-from ..divisions import Verdicts as _Verdicts, mutate, patched_attr as patched
+from ..divisions import Verdicts as _Verdicts, mutate, parts_collection, patched_attr as patched
 from ..frameobs import partitions_of, plain, rank_map, time_limit, to_rank
-from ..frames import dd, from_parts, is_shim_error, split_rows
+from ..frames import dd, is_shim_error, split_rows
 from ..par import pmap
 
 META = {
@@ -156,12 +156,13 @@ def _run_quantiles(case, layer):
         dd()
         data = q_values(case["data"], case["kind"])
         s = pd.Series(data, name="a")
+        key = (layer, list(case["data"]), case["kind"], list(case["layout"]))      # deterministic names -> deterministic random percentiles
         if layer == "rq":
-            ds = from_parts(split_rows(s, case["layout"]))
+            ds = parts_collection(split_rows(s, case["layout"]), key=key)
             res = ds._repartition_quantiles(case["npartitions"], upsample=case.get("upsample", 1.0)).compute(scheduler="sync").tolist()
         else:
             from dask.dataframe.dask_expr import _shuffle
-            df = from_parts(split_rows(s.to_frame(), case["layout"]))
+            df = parts_collection(split_rows(s.to_frame(), case["layout"]), key=key)
             res = list(_shuffle._calculate_divisions(df.expr, df["a"].expr, case["npartitions"])[0])
     ranks = rank_map(data, res)
     return {"raised": "", "data": [to_rank(v, ranks) for v in data], "divs": [to_rank(v, ranks) for v in res]}
